@@ -1081,6 +1081,21 @@ class FunctionScope(Scope):
         # We set both a constraint and its inverse using the same node as the definition
         # node, so cheat and include the constraint itself in the key.
         node = (node, constraint)
+        existing = self.definition_node_to_value.get(node)
+        if isinstance(existing, _ConstrainedValue):
+            # This constraint was applied at this node before: it appears twice in
+            # an AND, the expression is evaluated twice, or this is the second visit
+            # to a loop body. Keep the definitions that reached the node then and
+            # drop the reference to the node itself; otherwise the value may end up
+            # referring only to itself, which resolves to Never.
+            def_nodes = tuple(
+                dict.fromkeys(
+                    [
+                        *existing.definition_nodes,
+                        *(def_node for def_node in def_nodes if def_node != node),
+                    ]
+                )
+            )
         val = _ConstrainedValue(def_nodes, [constraint])
         self.definition_node_to_value[node] = val
         self.name_to_current_definition_nodes[varname] = [node]
